@@ -109,7 +109,7 @@ def run_cell(c):
             b_raw = layout(base_vals(sh if c["opt"] == "none" else sh[-1:], k, 2), c["layout"] if c["opt"] == "none" else "contig")
             b_mg = b_raw
         else:
-            b_raw = b_mg = {"pybool": True, "pyint": 2, "pyfloat": 1.5}[k]
+            b_raw = b_mg = {"pybool": True, "pyint": 2, "pyfloat": 2.0}[k]   # (equal values of different Python types on purpose)
         ta = mg.tensor(a) if c["a"] in ("f2", "f4", "f8") else mg.tensor(a)
         kw = {}
         opt = c["opt"]
